@@ -93,6 +93,12 @@ def run_call(o, n, o_none, n_none, opts, backend, tmp):
         kw["meta_cmp_key"] = lambda meta: (meta.isdir, meta.isexec) if meta is not None else None
 
     def call(a, b, renames):
+        if opts.get("view"):
+            from dvc_data.index.view import view
+
+            keep = lambda k: k[:1] == ("a",)  # noqa: E731 - a filter that does not accept the root key ()
+            a = view(a, keep) if a is not None else None
+            b = view(b, keep) if b is not None else None
         try:
             return _changes(diff(a, b, with_renames=renames, **kw))
         except Exception as exc:  # noqa: BLE001 - the exception is the observation
@@ -129,11 +135,13 @@ def opt_sets():
         if key != "none" and mode == "hash":
             continue  # the key function is not consulted when only hashes are compared
         out.append({"unchanged": u, "hash_only": mode == "hash", "meta_only": mode == "meta", "shallow": sh, "renames": ren,
-                    "key": key, "unknown": False})
+                    "key": key, "unknown": False, "view": False})
         if key == "none":
             out.append({**out[-1], "unknown": True})
             # "no hash" spelled as an empty HashInfo object on one side or both
             out.append({**out[-2], "eo": 1 + len(out) % 2, "en": len(out) % 3})
+            # both sides as filtered views (of an in-memory index)
+            out.append({**out[-3], "view": True})
     return out
 
 
